@@ -206,11 +206,12 @@ func (t *Standard) Open(a *Args) error {
 
 // Close closes the Standard transport.
 func (t *Standard) Close() error {
+	var sessionErr error
+
 	if t.session != nil {
-		err := t.session.Close()
-		if err != nil {
-			return err
-		}
+		// the session may be over already (the server ended it: io.EOF) -- the connection under it
+		// still has to be closed
+		sessionErr = t.session.Close()
 
 		t.session = nil
 	}
@@ -224,7 +225,7 @@ func (t *Standard) Close() error {
 		t.client = nil
 	}
 
-	return nil
+	return sessionErr
 }
 
 // IsAlive returns true if the Standard transport session attribute is not nil.
